@@ -60,6 +60,7 @@ type funcInfo struct {
 	storesThru map[int]map[string]bool
 	unknownVia map[int]map[string]bool // param -> descriptions of unclassifiable uses
 	retAlias   []rootSet               // per result index: pkgvars and own params that may flow into it
+	retDirect  []rootSet               // per result index: roots the result itself may point to (not merely contain)
 	captures   map[int]rootSet         // dst param -> roots (pkgvars / own params)
 	captured   map[*types.Var]rootSet // roots stored INTO the object a local refers to (x.f = v)
 	idx        *funcIndex
@@ -85,6 +86,8 @@ type storeFact struct {
 	kind  string
 	field string // first selector below the root (receiver field / struct field), "" if none
 	pos   token.Position
+	// direct: the cell is in the object the root's value points to (p.f = v), not deeper in reachable memory
+	direct bool
 }
 
 type unknownFact struct {
@@ -171,6 +174,7 @@ func newAnalysis(prog *program) *analysis {
 				sig := obj.Type().(*types.Signature)
 				for i := 0; i < sig.Results().Len(); i++ {
 					fi.retAlias = append(fi.retAlias, rootSet{})
+					fi.retDirect = append(fi.retDirect, rootSet{})
 				}
 				if r := sig.Recv(); r != nil {
 					fi.hasRecv = true
@@ -698,6 +702,109 @@ func (c *fctx) callResultRoots(call *ast.CallExpr, idx int) rootSet {
 	return out
 }
 
+// directRootsOf: the roots whose memory the VALUE of e itself may point to.  A freshly allocated object that
+// merely contains references (a composite literal, the result of a constructor) points to none; rootsOf also
+// reports what the object contains.  The split keeps "p.f = v" on a fresh wrapper apart from a store into the
+// caller's object.
+func (c *fctx) directRootsOf(e ast.Expr) rootSet {
+	if t := c.typeOf(e); t != nil && !refs(t) {
+		return rootSet{}
+	}
+	switch x := e.(type) {
+	case nil:
+		return rootSet{}
+	case *ast.ParenExpr:
+		return c.directRootsOf(x.X)
+	case *ast.Ident:
+		if v, ok := c.objOf(x).(*types.Var); ok {
+			return c.directRoots(v, x)
+		}
+		return rootSet{}
+	case *ast.CompositeLit, *ast.FuncLit, *ast.BasicLit:
+		return rootSet{}
+	case *ast.UnaryExpr:
+		if x.Op == token.AND {
+			switch in := unparen(x.X).(type) {
+			case *ast.CompositeLit:
+				return rootSet{}
+			case *ast.Ident:
+				if v, ok := c.objOf(in).(*types.Var); ok {
+					if _, isPkg := c.an.pkgVars[v]; isPkg {
+						return rootSet{v: {}}
+					}
+					return rootSet{} // address of a local's own storage
+				}
+			}
+			return c.rootsOf(x.X)
+		}
+		return c.valueRoots(e)
+	case *ast.TypeAssertExpr:
+		return c.directRootsOf(x.X)
+	case *ast.SliceExpr:
+		return c.directRootsOf(x.X)
+	case *ast.CallExpr:
+		return c.callResultDirect(x, -1)
+	}
+	return c.valueRoots(e) // loaded from memory (x.f, x[i], *x): whatever is reachable
+}
+
+// callResultDirect: like callResultRoots, for what result idx itself may point to
+func (c *fctx) callResultDirect(call *ast.CallExpr, idx int) rootSet {
+	ct := c.resolve(call)
+	out := rootSet{}
+	if t := c.typeOf(call); t != nil {
+		if tup, ok := t.(*types.Tuple); ok && idx >= 0 && idx < tup.Len() {
+			if !refs(tup.At(idx).Type()) {
+				return out
+			}
+		} else if !refs(t) {
+			return out
+		}
+	}
+	switch {
+	case ct.conv:
+		if len(call.Args) == 1 {
+			return c.directRootsOf(call.Args[0])
+		}
+		return out
+	case ct.builtin != "":
+		if ct.builtin == "append" && len(call.Args) > 0 {
+			return c.directRootsOf(call.Args[0])
+		}
+		return out
+	}
+	args := c.callArgs(call, ct)
+	for _, callee := range ct.static {
+		for ri, rs := range callee.retDirect {
+			if idx >= 0 && ri != idx {
+				continue
+			}
+			for r := range rs {
+				if _, ok := c.an.pkgVars[r]; ok {
+					out[r] = struct{}{}
+				} else if i, ok := callee.pidx[r]; ok {
+					for ai, a := range args {
+						if paramIndexForArg(callee, ai) == i {
+							out.addAll(c.directRootsOf(a))
+						}
+					}
+				}
+			}
+		}
+	}
+	if ct.ext != nil || ct.dynamic {
+		if ct.ext != nil {
+			if e, ok := extTable[extName(ct.ext)]; ok && e.fresh {
+				return out
+			}
+		}
+		for _, a := range args {
+			out.addAll(c.valueRoots(a))
+		}
+	}
+	return out
+}
+
 // ---------------------------------------------------------------- lvalues
 
 type lstep struct {
@@ -844,7 +951,7 @@ func (c *fctx) recordStoreThrough(r *types.Var, elem string, kind, field string,
 			c.an.changed = true
 		}
 		if c.an.final {
-			c.an.pstores = append(c.an.pstores, storeFact{root: r, fn: c.fi, kind: kind, field: field, pos: c.an.prog.fset.Position(pos)})
+			c.an.pstores = append(c.an.pstores, storeFact{root: r, fn: c.fi, kind: kind, field: field, pos: c.an.prog.fset.Position(pos), direct: direct})
 		}
 	}
 }
@@ -963,6 +1070,25 @@ func (c *fctx) directRoots(v *types.Var, id *ast.Ident) rootSet {
 	return out
 }
 
+// bind2: like bind, with the roots the value itself points to (ds) kept apart from everything it may
+// reference (rs ⊇ ds): a local's alias set holds the former, its captured set the latter
+func (c *fctx) bind2(lhs ast.Expr, ds, rs rootSet) {
+	if id, ok := unparen(lhs).(*ast.Ident); ok && id.Name != "_" {
+		if v, ok := c.objOf(id).(*types.Var); ok {
+			if _, isPkg := c.an.pkgVars[v]; !isPkg {
+				if len(ds) > 0 {
+					c.addAlias(v, ds)
+				}
+				if len(rs) > 0 {
+					c.addCaptured(v, rs)
+				}
+				return
+			}
+		}
+	}
+	c.bind(lhs, rs)
+}
+
 // bind: value of rhs flows into lvalue lhs (aliasing)
 func (c *fctx) bind(lhs ast.Expr, rs rootSet) {
 	if len(rs) == 0 {
@@ -1073,13 +1199,7 @@ func (c *fctx) handleCall(call *ast.CallExpr) {
 					el, direct := key[2:], key[0] == 'd'
 					roots := c.valueRoots(a)
 					if direct {
-						if id, ok := unparen(a).(*ast.Ident); ok {
-							if v, ok := c.objOf(id).(*types.Var); ok {
-								roots = c.directRoots(v, id)
-							}
-						} else {
-							direct = false
-						}
+						roots = c.directRootsOf(a)
 					}
 					for r := range roots {
 						c.recordStoreThrough(r, el, "call:"+callee.name, "", call.Pos(), direct)
@@ -1339,11 +1459,17 @@ func (c *fctx) walkBody() {
 						if c.fi.retAlias[i].addAll(c.callResultRoots(call, i)) {
 							c.an.changed = true
 						}
+						if c.fi.retDirect[i].addAll(c.callResultDirect(call, i)) {
+							c.an.changed = true
+						}
 					}
 				}
 			} else {
 				for i, r := range s.Results {
 					if i < len(c.fi.retAlias) && c.fi.retAlias[i].addAll(c.valueRoots(r)) {
+						c.an.changed = true
+					}
+					if i < len(c.fi.retDirect) && c.fi.retDirect[i].addAll(c.directRootsOf(r)) {
 						c.an.changed = true
 					}
 				}
@@ -1375,6 +1501,9 @@ func (c *fctx) walkBody() {
 			if c.fi.retAlias[i].addAll(c.varRoots(v)) {
 				c.an.changed = true
 			}
+			if c.fi.retDirect[i].addAll(c.directRoots(v, nil)) {
+				c.an.changed = true
+			}
 		}
 	}
 }
@@ -1391,24 +1520,24 @@ func (c *fctx) assign(s *ast.AssignStmt) {
 			// := may assign to an existing variable of an outer... only same-scope redeclaration: local
 			_ = id
 		}
-		var rs rootSet
+		var rs, ds rootSet
 		if len(s.Rhs) == len(s.Lhs) {
-			rs = c.valueRoots(s.Rhs[i])
+			rs, ds = c.valueRoots(s.Rhs[i]), c.directRootsOf(s.Rhs[i])
 			if t := c.typeOf(l); t != nil && !refs(t) {
-				rs = nil
+				rs, ds = nil, nil
 			}
 		} else if len(s.Rhs) == 1 {
 			if call, ok := unparen(s.Rhs[0]).(*ast.CallExpr); ok {
-				rs = c.callResultRoots(call, i)
+				rs, ds = c.callResultRoots(call, i), c.callResultDirect(call, i)
 			} else if i == 0 {
-				rs = c.valueRoots(s.Rhs[0]) // v, ok := x.(T) / m[k] / <-ch
+				rs, ds = c.valueRoots(s.Rhs[0]), c.directRootsOf(s.Rhs[0]) // v, ok := x.(T) / m[k] / <-ch
 			}
 			if t := c.typeOf(l); t != nil && !refs(t) {
-				rs = nil
+				rs, ds = nil, nil
 			}
 		}
 		if how == "assign" {
-			c.bind(l, rs)
+			c.bind2(l, ds, rs)
 		}
 	}
 }
